@@ -73,6 +73,37 @@ def cstring(data):
     return ptr(mem(1, [schar(b) for b in data] + [0]))
 
 
+class WatchedBytes(list):
+    """element list of a char buffer that remembers the highest index read through it (by the interpreted
+    code, `ElemPlace.get`, and by the libc models, `cbytes`); slices and iteration are not counted"""
+    __slots__ = ('hi',)
+
+    def __init__(self, elems):
+        list.__init__(self, elems)
+        self.hi = -1
+
+    def __getitem__(self, i):
+        if isinstance(i, int) and not isinstance(i, bool) and i > self.hi:
+            self.hi = i
+        return list.__getitem__(self, i)
+
+
+REDZONE = [10] * 16 + [0]
+
+
+def watched_cstring(data):
+    """(pointer, watch, index of the terminator): a char buffer holding `data`, its terminating NUL, and behind it
+    a red zone that does not belong to the string (what follows a real buffer is arbitrary memory; the red zone is
+    line feeds and a NUL so that a scanner that runs over the terminator still stops).  watch.hi > index of the
+    terminator after a run <=> the run read memory behind the string"""
+    if isinstance(data, str):
+        data = data.encode('utf-8', 'surrogatepass')
+    w = WatchedBytes([schar(b) for b in data] + [0] + REDZONE)
+    a = mem(1, [])
+    a.elems = w
+    return ptr(a), w, len(data)
+
+
 def arr_of(v):
     """(Arr, index) of a pointer value, or None"""
     if isinstance(v, _Ref) and isinstance(v.place, ElemPlace) and isinstance(v.place.arr, Arr) and isinstance(v.place.i, int):
